@@ -676,3 +676,8 @@ def replay(ctx, payload):
     if not v and ctx.driver is not None and st.get("pending") and w.get("layer"):
         d += judge_model(st["pending"], batch(ctx.driver, st["pending"][0]))
     return v[0] if v else (d[0] if d and w.get("layer") else None)
+
+
+def explore_shard(ctx):
+    """extra parallel shard of the thorough tier (weakref / gc census: no timing involved)"""
+    return explore(ctx)
